@@ -5,7 +5,7 @@ const ghostPreludeMarker = "// ---- ghost prelude ----"
 // Names the engine intercepts (their Go bodies exist for replay only).
 var ghostBuiltinNames = []string{
 	"seq", "seqOf", "bytesOf", "cat", "cat3", "cat4", "b1", "u16be", "sub", "slen", "sat", "mkseq", "seqEq", "seq0",
-	"maxAlloc", "msnap", "mapSnap", "snapHas", "snapGet", "mapHas", "forall", "exists", "fresh", "arrayOf", "sameArray", "ite",
+	"forallKey", "maxAlloc", "msnap", "mapSnap", "guardSnap", "snapHas", "snapGet", "mapHas", "forall", "exists", "fresh", "arrayOf", "sameArray", "ite",
 	"evCount", "evIndex", "evArg", "evBytes", "evRet", "evTotal",
 	"holds", "holdsR", "closed", "isNilFunc", "closureIs", "closureVar", "sameFunc", "dynType", "typeIs",
 	"strBytesEq", "runeOK", "validUTF8", "utf8norm", "utf8normOf", "ovfFree", "unchanged", "fnCode", "readyAt",
@@ -110,6 +110,16 @@ func evRet[T any](name string, k, res int) T { var z T; return z }
 
 func ghostTrue() bool { return true }
 
+// forallKey(f): f holds for every value of its (unsigned 16-bit) key type.
+func forallKey(f func(uint16) bool) bool {
+	for k := 0; k < 65536; k++ {
+		if !f(uint16(k)) {
+			return false
+		}
+	}
+	return true
+}
+
 // validUTF8(s): s is well-formed UTF-8.
 func validUTF8(s string) bool { return string([]rune(s)) == s }
 
@@ -126,6 +136,8 @@ func mapSnap[K comparable, V any](m map[K]V) msnap[K, V] {
 	}
 	return msnap[K, V]{c}
 }
+// guardSnap(m): content of the lock-guarded map m right after its guard was last acquired (verifier only).
+func guardSnap[K comparable, V any](m map[K]V) msnap[K, V] { return mapSnap(m) }
 func snapHas[K comparable, V any](s msnap[K, V], k K) bool { _, ok := s.m[k]; return ok }
 func snapGet[K comparable, V any](s msnap[K, V], k K) V    { return s.m[k] }
 func mapHas[K comparable, V any](m map[K]V, k K) bool      { _, ok := m[k]; return ok }
